@@ -33,13 +33,14 @@ MC_KindsSel == [negative |-> 1, subtract |-> 2, select |-> 3]
 
 \* simulation-only next-state relation: one random request per step (RandomElement keeps the
 \* branching at 1; the exhaustive relation enumerates thousands of successors per step)
+LikeAny == MaxSteps >= 20       \* the long walks (SIM_ContextAll.cfg) also use operation nodes as likes
 SimNext ==
   /\ Len(hist) < MaxSteps
   /\ \E c \in {RandomElement(1..10)} :     \* bound variables are evaluated once (LET is lazy)
        IF c <= 2 \/ Len(nodes) = 0
          THEN \E s \in {RandomElement(Symbols)} : Construct(SymbolNode(s)) /\ UNCHANGED nconst
        ELSE IF c <= 5
-         THEN \E v \in {RandomElement(Values)}, lk \in {RandomElement(Likes)} :
+         THEN \E v \in {RandomElement(Values)}, lk \in {RandomElement(IF LikeAny THEN LikesAny ELSE Likes)} :
                  Construct(ConstNode(v, lk)) /\ nconst' = nconst + 1
        ELSE \E k \in {RandomElement(DOMAIN Kinds)} :
               \E o1 \in {RandomElement(Exprs)}, o2 \in {RandomElement(Exprs)}, o3 \in {RandomElement(Exprs)} :
